@@ -247,3 +247,36 @@ func RandShuffle(n int, swap func(i, j int)) {
 	}
 }
 func RandSeed(seed int64) {}
+
+// ---------------------------------------------------------------------------
+// per-user directories and directory creation on the virtual file system
+
+var madeDirs = map[string]bool{}
+
+func UserCacheDir() (string, error)  { return "/sim/home/.cache", nil }
+func UserConfigDir() (string, error) { return "/sim/home/.config", nil }
+func UserHomeDir() (string, error)   { return "/sim/home", nil }
+func Getwd() (string, error)         { return "/sim/cwd", nil }
+
+// MkdirAll replaces os.MkdirAll.
+func MkdirAll(path string, perm os.FileMode) error {
+	if !active {
+		return os.MkdirAll(path, perm)
+	}
+	for p := filepath.Clean(path); p != "/" && p != "."; p = filepath.Dir(p) {
+		madeDirs[p] = true
+	}
+	return nil
+}
+
+// Mkdir replaces os.Mkdir.
+func Mkdir(path string, perm os.FileMode) error {
+	if !active {
+		return os.Mkdir(path, perm)
+	}
+	if dirExists(path) {
+		return &fs.PathError{Op: "mkdir", Path: path, Err: syscall.EEXIST}
+	}
+	madeDirs[filepath.Clean(path)] = true
+	return nil
+}
